@@ -158,6 +158,30 @@ def r_reclaim(prog, R):
             r.viol(k, f.name, f.loc(pel), "ares_buf_reclaim drops everything in front of the read position (%s) on a path on which a tag may be set before it: the bytes between the tag and the read position are lost, tag fetch returns nothing and a rollback lands on the wrong byte" % render(pel["e"]))
         else:
             r.ok(k, f.loc(pel))
+    # ... nor past the read position: `prefix = tag_offset` only where the tag is known to lie before the offset
+    tdefs = [(b, i, el) for b, i, el in f.elements() if el["k"] == "asg" and el["e"]["op"] == "=" and is_var(strip(el["e"]["l"])) and is_field(el["e"].get("r"), "tag_offset", "ares_buf")]
+    for pb, pi, pel in tdefs:
+        k = "removed prefix stops at the read position"
+        okall = bool(pb.preds)
+        for pr in pb.preds:
+            pblk = f.blocks[pr]
+            br = f.branch(pblk)
+            okedge = False
+            if br and br[1] != br[2]:
+                pol = (br[1] == pb.id)
+                for c3, p3 in atoms(br[0], pol):
+                    op3, l3, r3 = norm_cmp(c3, p3)
+                    if r3 is None:
+                        continue
+                    if op3 in ("<", "<=") and is_field(l3, "tag_offset") and is_field(r3, "offset"):
+                        okedge = True
+                    if op3 in (">", ">=") and is_field(l3, "offset") and is_field(r3, "tag_offset"):
+                        okedge = True
+            okall = okall and okedge
+        if okall:
+            r.ok(k, f.loc(pel))
+        else:
+            r.viol(k, f.name, f.loc(pel), "ares_buf_reclaim drops everything in front of the tag (%s) without knowing that the tag lies before the read position: after a seek back in front of the tag the unread bytes between position and tag are discarded and the offset underflows" % render(pel["e"]))
     if other and not adj:
         r.viol("tag rebased by the removed prefix", f.name, f.loc(other[0][2]), "the tag is set with '%s' instead of being moved back by exactly the number of bytes removed" % render(other[0][2]["e"]))
         return
